@@ -284,6 +284,16 @@ func (afs *osFS) ResolveLink(symlink string, startingAt fs.RelPath) (fs.RelPath,
 	if startingAt.GoesUp() {
 		return startingAt, Errorf(fs.ErrBreakout, "fs: invalid path %q: must not depart basepath", startingAt)
 	}
+	// The directory the link sits in may itself be named through links: resolve it (inside the base) first.
+	//  Left as given, the host would resolve those links -- against its own root -- as soon as a segment
+	//  of the target is inspected.
+	if startingAt != (fs.RelPath{}) {
+		dir, err := afs._realpath(startingAt.Dir(), true)
+		if err != nil {
+			return startingAt, err
+		}
+		startingAt = dir.Join(fs.MustRelPath(startingAt.Last()))
+	}
 	return afs.resolveLink(symlink, startingAt, map[fs.RelPath]struct{}{})
 }
 func (afs *osFS) resolveLink(symlink string, startingAt fs.RelPath, seen map[fs.RelPath]struct{}) (fs.RelPath, error) {
